@@ -127,7 +127,22 @@ fn op_decode(args: &[&str]) -> String {
 
 fn parse_msg(s: &str) -> Result<Message, String> {
     let v = parse_val(s)?;
-    from_val::<Message>(&v).map_err(|e| e.0)
+    #[allow(unused_mut)]
+    let mut m = from_val::<Message>(&v).map_err(|e| e.0)?;
+    // the free-text field is built the way a user of the public API builds it, with
+    // ArrayString::from(&str), not through the serde visitor that from_val goes through
+    if let Message::Msg1029(ref mut t) = m {
+        if let Val::Variant(_, Some(body)) = &v {
+            if let Val::Struct(fields) = body.as_ref() {
+                if let Some(last) = fields.last() {
+                    if let Some(text) = cps_to_string(last) {
+                        t.text_str = rtcm_rs::util::ArrayString::from(text.as_str());
+                    }
+                }
+            }
+        }
+    }
+    Ok(m)
 }
 
 fn op_encode(args: &[&str]) -> String {
